@@ -5,6 +5,7 @@ import (
 	"fmt"
 	"os"
 	"sort"
+	"strings"
 
 	"github.com/tidwall/geojson/verifsim"
 )
@@ -47,6 +48,8 @@ var geomKinds = []string{"Point", "SimplePoint", "LineString", "Polygon", "Rect"
 var allKinds = []string{"Point", "SimplePoint", "LineString", "Polygon", "Rect", "Circle", "MultiPoint", "MultiLineString", "MultiPolygon", "GeometryCollection", "Feature", "FeatureCollection"}
 
 var featureMembers = []string{
+	`"id":"dup","properties":{"a":1},"properties":{"b":[2,{"c":"` + strings.Repeat("long-", 60) + `"}]}`,
+	`"properties":{"deep":{"a":{"b":{"c":{"d":{"e":[[[[1]]]]}}}}},"s":"tab\tquote\"uni\u00e9"},"bbox":[-10,-10,10,10]`,
 	``,
 	`"properties":{}`,
 	`"id":"f1","properties":{"name":"x","n":[1,2,{"a":null}]}`,
